@@ -378,6 +378,17 @@ theorem C17_text_roundtrip (showCost : Rat → Str) (rowCost : Codes → Rat →
     parseBody readCost (renderBody showCost rowCost width b) = some b :=
   parse_render_body showCost rowCost readCost width hw b hb hc
 
+/-- … down to the characters: no line the model writes contains a newline, so the body TEXT —
+`"\n".join(lines)` — splits back (`split("\n")`) into those lines, and the structured body is read back from the
+text itself. -/
+theorem C17_text_roundtrip_string (showCost : Rat → Str) (rowCost : Codes → Rat → Str) (readCost : Str → Option Rat)
+    (width : Nat) (hw : 0 < width) (b : List (Bucket × List Section))
+    (hb : okBody b = true) (hc : costsOK showCost rowCost readCost b = true) :
+    (∀ l ∈ renderBody showCost rowCost width b, '\n' ∉ l) ∧
+      parseBody readCost (splitLines (joinLines (renderBody showCost rowCost width b))) = some b :=
+  ⟨renderBody_no_nl showCost rowCost readCost width hw b hb hc,
+    parse_render_text showCost rowCost readCost width hw b hb hc⟩
+
 /-- Two reports with the same body text have the same structured body. -/
 theorem C17_text_injective (showCost : Rat → Str) (rowCost : Codes → Rat → Str) (readCost : Str → Option Rat)
     (width : Nat) (hw : 0 < width) (b b' : List (Bucket × List Section))
@@ -457,6 +468,9 @@ example : (renderBody showFloat (rowCostText true) 30 exampleBody).map String.of
      "", "## 1 program of learning cost in [1, 2[",
      "", "### Program b.py (learning cost 1.375)", "", "| Cost  | Taxon | Location |", "|----|----|----|",
      "| 0.75 | `x/y` | 1-2, 5 |", "| 0.5 | `z` | _imported_ |", "", "---"] := by decide +kernel
+
+example : (splitLines (joinLines (renderBody showFloat (rowCostText true) 30 exampleBody))).length = 30 := by
+  decide +kernel
 
 example : parseBody readDecimal (renderBody showFloat (rowCostText true) 30 exampleBody) = some exampleBody :=
   C17_text_roundtrip _ _ _ 30 (by decide) _ (by decide +kernel) (by decide +kernel)
